@@ -244,7 +244,7 @@ class _HGen:
         idx = self.names.index(name)
         below = self.below.get(name, [])
         scoped = in_loop and d(st.integers(0, 9)) < 6
-        required = (not force_plain) and lvl == 0 and not below and d(st.integers(0, 9)) < 2
+        required = (not force_plain) and lvl == 0 and not below and d(st.integers(0, 11)) == 0
         flags = {}
         if scoped:
             flags["scoped"] = True
@@ -355,12 +355,16 @@ class _HGen:
         """Top-level statements of a template: placements (root) or definitions + stray content (child)."""
         d = self.draw
         items = []
-        n = d(st.integers(1, self.size + 2))
+        if not is_root:
+            for name, fl in sorted(self.below.items()):
+                if len(fl) == 1 and fl[0].get("required") and d(st.integers(0, 9)) < 6:
+                    items.append(self.block_node(name, lvl, 0, in_loop=False))
+        n = d(st.integers(2, self.size + 3)) if is_root else d(st.integers(1, self.size + 2))
         for _ in range(n):
             free = self.free_names(-1)
             if is_root:
-                choices = [(3, "text"), (2, "out"), (8 if free else 0, "block"), (3 if free else 0, "loop"), (2, "set"),
-                           (1, "macro"), (1, "self"), (2 if free else 0, "ifblock"), (1, "mcall")]
+                choices = [(3, "text"), (2, "out"), (12 if free else 0, "block"), (6 if free else 0, "loop"), (2, "set"),
+                           (1, "macro"), (2, "self"), (2 if free else 0, "ifblock"), (1, "mcall")]
             else:
                 choices = [(2, "text"), (2, "out"), (9 if free else 0, "block"), (2 if free else 0, "loop"), (3, "set"),
                            (1, "macro"), (2 if free else 0, "ifblock"), (1, "strayloop"), (1 if free else 0, "withblock"),
@@ -424,7 +428,7 @@ class _HGen:
 def hierarchies(draw, max_depth=3, max_blocks=4, size=3):
     """Inheritance chains t0 <- t1 <- ... <- tk (k <= max_depth); every template is an entry."""
     nb = draw(st.integers(1, max_blocks))
-    k = draw(st.integers(0, max_depth))
+    k = _weighted(draw, [(1, 0)] + [(3, i) for i in range(1, max_depth + 1)])
     g = _HGen(draw, nb, size)
     templates = {}
     data = {}
@@ -591,6 +595,7 @@ class _MGen:
             return ["c", lib], lib, k
         if k == "list":
             first = d(st.sampled_from(["nope0", "nope0", lib, "tobj"]))
+            lib = d(st.sampled_from(self.libs))  # the later entry may differ from an existing first entry
             names = [["c", first] if first != "tobj" else ["n", "tobj"], ["c", lib]]
             if d(st.integers(0, 3)) == 0:
                 names.insert(1, ["c", "nope1"])
@@ -695,7 +700,7 @@ class _MGen:
                 if d(st.booleans()):
                     body.append(["set", d(st.sampled_from(["q", "x", "w"])), ["cat", ["c", "it"], ["n", "i"]]])
                 body += self.inner()
-                items.append(["for", "i", d(st.sampled_from([[1], [1, 2], ["z"], []])), body])
+                items.append(["for", "i", d(st.sampled_from([[1], [1, 2], [1, 2], ["z"], ["z", 3], []])), body])
             elif k == "with":
                 body = []
                 if d(st.integers(0, 2)) == 0:
@@ -739,7 +744,8 @@ def module_sets(draw, max_libs=3, size=3, buffered_nocontext=True):
     if g.have_broken:
         templates["bad"] = dict(BROKEN)
     data = {"nm": g.nm_lib, "tobj": {"$": "template", "name": g.tobj_lib}}
-    data["nms"] = [draw(st.sampled_from(["nope0", nms_lib])), nms_lib] if draw(st.booleans()) else ["nope0", "nope1", nms_lib]
+    other_lib = draw(st.sampled_from(g.libs))
+    data["nms"] = [draw(st.sampled_from(["nope0", nms_lib])), other_lib] if draw(st.booleans()) else ["nope0", "nope1", nms_lib]
     if draw(st.integers(0, 4)) > 0:
         data["x"] = draw(_WORD)
     for name in ("i", "w", "a", "q", "p0"):
